@@ -78,6 +78,8 @@ pub struct SS {
     pub next_seq: u32,
     pub last_keepalive: Vec<Option<Vec<u8>>>,
     pub last_nak: Option<u32>,
+    /// number of the last SRTLA ACK injected
+    pub last_sla: Option<u32>,
     /// classic reference model (C10): windows per link
     pub ref_windows: Vec<i32>,
     pub data_routed: u64,
@@ -160,6 +162,7 @@ impl StreamModel {
             next_seq: 1000,
             last_keepalive,
             last_nak: None,
+            last_sla: None,
             ref_windows,
             data_routed: 0,
             probes_sent: 0,
@@ -337,6 +340,12 @@ fn classify(b: &[u8]) -> Wire {
     }
 }
 
+/// Number of datagrams in the link's batch queue, read off the queue itself (not through
+/// `queued_count()`, which is code under test: the classic score's `queued` term).
+fn qlen(c: &srtla_core::connection::SrtlaConnection) -> i32 {
+    c.batch_sender.verif_lens().0 as i32
+}
+
 impl StreamModel {
     fn usable(&self, s: &SS, l: usize) -> bool {
         let c = &s.w.connections[l];
@@ -349,7 +358,7 @@ impl StreamModel {
         let n = self.n;
         let established = s.w.reg.has_connected;
         let usable: Vec<bool> = (0..n).map(|l| self.usable(s, l)).collect();
-        let pre_q: Vec<i32> = s.w.connections.iter().map(|c| c.batch_sender.queued_count()).collect();
+        let pre_q: Vec<i32> = s.w.connections.iter().map(|c| qlen(c)).collect();
         let pre_bytes: Vec<u64> = s.w.connections.iter().map(|c| c.bitrate.bytes_sent_total).collect();
         let pre_connected: Vec<bool> = s.w.connections.iter().map(|c| c.connected).collect();
         let pre_phase_reg: Vec<bool> = s.w.connections.iter().map(|c| matches!(c.phase, LinkPhase::Registering)).collect();
@@ -366,7 +375,7 @@ impl StreamModel {
                     continue;
                 }
                 let c = &s.w.connections[l];
-                let score = c.window as i64 / (c.in_flight_packets as i64 + c.batch_sender.queued_count() as i64 + 1);
+                let score = c.window as i64 / (c.in_flight_packets as i64 + qlen(c) as i64 + 1);
                 if score > best_score {
                     best_score = score;
                     best = Some(l);
@@ -503,10 +512,10 @@ impl StreamModel {
         if !self.or.c01 {
             // keep the pending queues in step even when C01 is not judged
             for l in 0..self.n {
-                if after_flush || s.w.connections[l].batch_sender.queued_count() == 0 {
+                if after_flush || qlen(&s.w.connections[l]) == 0 {
                     s.mon[l].pending.clear();
                 } else {
-                    let q = s.w.connections[l].batch_sender.queued_count() as usize;
+                    let q = qlen(&s.w.connections[l]) as usize;
                     while s.mon[l].pending.len() > q {
                         s.mon[l].pending.pop_front();
                     }
@@ -550,7 +559,7 @@ impl StreamModel {
         // queue / pending agreement and hold bound
         for l in 0..self.n {
             let c = &s.w.connections[l];
-            let q = c.batch_sender.queued_count() as usize;
+            let q = qlen(c) as usize;
             if q > 32 {
                 return Err(Fail::new("queue-exceeds-one-batch", format!("link {l} holds {q} datagrams between flushes")));
             }
@@ -775,17 +784,22 @@ impl StreamModel {
             }
             SEv::UlaOwn(l) => {
                 s.w.advance(1);
-                let Some(q) = self.oldest(s, l) else { return Ok(()) };
+                // the oldest number the link holds; if it holds none, the newest number sent so far
+                // (acknowledged although nobody holds it any more, e.g. after the cumulative ACK)
+                let q = self.oldest(s, l).map(|q| q as u32).unwrap_or(s.next_seq.saturating_sub(1));
+                s.last_sla = Some(q);
                 let mut p = vec![0x91u8, 0x00, 0, 0];
-                p.extend_from_slice(&(q as u32).to_be_bytes());
+                p.extend_from_slice(&q.to_be_bytes());
                 self.uplink(env, s, l, &p)
             }
             SEv::UlaOther(l) => {
                 s.w.advance(1);
-                let other = (0..n).filter(|j| *j != l).find_map(|j| self.oldest(s, j).map(|q| (j, q)));
-                let Some((_, q)) = other else { return Ok(()) };
+                // the oldest number another link holds; if there is none, a duplicate of the last SRTLA ACK
+                let other = (0..n).filter(|j| *j != l).find_map(|j| self.oldest(s, j).map(|q| q as u32));
+                let Some(q) = other.or(s.last_sla) else { return Ok(()) };
+                s.last_sla = Some(q);
                 let mut p = vec![0x91u8, 0x00, 0, 0];
-                p.extend_from_slice(&(q as u32).to_be_bytes());
+                p.extend_from_slice(&q.to_be_bytes());
                 self.uplink(env, s, l, &p)
             }
             SEv::UnakSingle(l) => {
@@ -898,7 +912,7 @@ impl Model for StreamModel {
                     },
                     c.window,
                     c.in_flight_packets,
-                    c.batch_sender.queued_count(),
+                    qlen(c),
                     c.is_stall_gated(),
                     c.stall_latched(),
                 )
